@@ -108,10 +108,10 @@ StepCycle(e) ==
   /\ unexpected' = e.unexpected
   /\ status' = IF e.err THEN "ControlError" ELSE status
   /\ loop' = LoopAfter(e)
-  \* (a cycle during which somebody else wrote to the fan - "raced" - is exempt from the per-cycle formulas like a failed one)
-  /\ out' = [ev |-> "Cycle", cv |-> e.cv, req |-> e.req, err |-> e.err \/ e.raced, wrote |-> e.wrote,
+  \* (a cycle during which somebody else wrote to the fan - "raced" - or whose PWM write the device refused - "wfail" - leaves the registers in a state fan2go did not choose: `touched` stays set after it, which exempts that cycle from the formulas about the registers (C05_Undone, C01_SkipOnlyWhenEqual); its decisions are judged like any other cycle's)
+  /\ out' = [ev |-> "Cycle", cv |-> e.cv, req |-> e.req, err |-> e.err, wrote |-> e.wrote,
              raised |-> raised, tp |-> e.unexpected - unexpected]
-  /\ HCycle /\ H4Cycle
+  /\ HCycleW(e.wfail \/ e.raced) /\ H4Cycle
   \* conformance: is (this state, the observed next state) a step of the specification?
   /\ drift' = Note(/\ avg = AvgOf(e.avgm)
                    /\ MetricsConform(e)
